@@ -13,9 +13,15 @@ theorem linkage_spec (f : Flags) :
   rcases f with ⟨p, m, fw, e⟩
   cases p <;> cases m <;> cases fw <;> simp [linkage]
 
-/-- the C calling convention is used exactly for `extern` functions -/
-theorem callconv_spec (f : Flags) : callconv f = .c ↔ f.ext = true := by
+/-- the C calling convention is used exactly for `extern` functions and the entry point — the functions that code outside
+    the program calls; in particular whatever uses the C convention is externally visible or a declared foreign function -/
+theorem callconv_spec (f : Flags) : callconv f = .c ↔ (f.ext = true ∨ f.main = true) := by
   rcases f with ⟨p, m, fw, e⟩
-  cases e <;> simp [callconv]
+  cases e <;> cases m <;> simp [callconv]
+
+/-- a private function always uses the fast convention unless it is `extern` -/
+theorem private_fast (f : Flags) (h : linkage f = .privateL) (he : f.ext = false) : callconv f = .fast := by
+  rcases f with ⟨p, m, fw, e⟩
+  cases p <;> cases m <;> cases fw <;> simp_all [linkage, callconv]
 
 end Gen
